@@ -120,7 +120,7 @@ theorem EvalRel.mono {env : Nat → Nat} {A A' : Nat → Nat → Prop} (h : ∀ 
     · rename_i hc; rw [if_neg hc] at hv; exact ihb hv
 
 /-- upper bound: answers below `ρ` give a value below `evalExpr ρ`. -/
-theorem EvalRel.le {env : Nat → Nat} {A : Nat → Nat → Prop} {ρ : Nat → Nat}
+theorem EvalRel.upper {env : Nat → Nat} {A : Nat → Nat → Prop} {ρ : Nat → Nat}
     (h : ∀ c w, A c w → le w (ρ c)) :
     ∀ {e : Expr} {v : Nat}, EvalRel env A e v → le v (evalExpr env ρ e) := by
   intro e
@@ -139,7 +139,7 @@ theorem EvalRel.le {env : Nat → Nat} {A : Nat → Nat → Prop} {ρ : Nat → 
     · rename_i hc; rw [if_neg hc] at hv; exact ihb hv
 
 /-- lower bound: answers above `ρ` (on the callees) give a value above `evalExpr ρ`. -/
-theorem EvalRel.ge {env : Nat → Nat} {A : Nat → Nat → Prop} {ρ : Nat → Nat}
+theorem EvalRel.lower {env : Nat → Nat} {A : Nat → Nat → Prop} {ρ : Nat → Nat}
     (h : ∀ c w, A c w → le (ρ c) w) :
     ∀ {e : Expr} {v : Nat}, EvalRel env A e v → le (evalExpr env ρ e) v := by
   intro e
@@ -158,11 +158,12 @@ theorem EvalRel.ge {env : Nat → Nat} {A : Nat → Nat → Prop} {ρ : Nat → 
     · rename_i hc; rw [if_neg hc] at hv; exact ihb hv
 
 /-- functional answers: the value is `evalExpr`. -/
-theorem EvalRel.eq {env : Nat → Nat} {A : Nat → Nat → Prop} {ρ : Nat → Nat}
+theorem EvalRel.exact {env : Nat → Nat} {A : Nat → Nat → Prop} {ρ : Nat → Nat}
     (h : ∀ c w, A c w → w = ρ c) {e : Expr} {v : Nat} (hv : EvalRel env A e v) :
-    v = evalExpr env ρ e :=
-  le_antisymm (EvalRel.le (fun c w hw => by rw [h c w hw]; exact le_refl _) hv)
-    (EvalRel.ge (fun c w hw => by rw [h c w hw]; exact le_refl _) hv)
+    v = evalExpr env ρ e := by
+  have h1 : ∀ c w, A c w → le w (ρ c) := fun c w hw => by rw [h c w hw]; exact le_refl _
+  have h2 : ∀ c w, A c w → le (ρ c) w := fun c w hw => by rw [h c w hw]; exact le_refl _
+  exact le_antisymm (EvalRel.upper h1 hv) (EvalRel.lower h2 hv)
 
 /-- every dynamic callee was answered. -/
 theorem EvalRel.answered {env : Nat → Nat} {A : Nat → Nat → Prop} :
@@ -221,16 +222,15 @@ def Avail (s : St) (c w : Nat) : Prop :=
 
 /-- the state only grew (within one iteration). -/
 structure Ext (s s' : St) : Prop where
-  stack : s'.stack = s.stack
   poisoned : s'.poisoned = s.poisoned
   final : ∀ c w, s.final.lookup c = some w → s'.final.lookup c = some w
   prov : ∀ c w, s.prov.lookup c = some w → s'.prov.lookup c = some w
   cache : ∀ c w, cval s c = some w → cval s' c = some w
 
-theorem Ext.refl (s : St) : Ext s s := ⟨rfl, rfl, fun _ _ h => h, fun _ _ h => h, fun _ _ h => h⟩
+theorem Ext.refl (s : St) : Ext s s := ⟨rfl, fun _ _ h => h, fun _ _ h => h, fun _ _ h => h⟩
 
 theorem Ext.trans {s1 s2 s3 : St} (h1 : Ext s1 s2) (h2 : Ext s2 s3) : Ext s1 s3 :=
-  ⟨h2.stack.trans h1.stack, h2.poisoned.trans h1.poisoned,
+  ⟨h2.poisoned.trans h1.poisoned,
    fun c w h => h2.final c w (h1.final c w h),
    fun c w h => h2.prov c w (h1.prov c w h), fun c w h => h2.cache c w (h1.cache c w h)⟩
 
@@ -240,9 +240,17 @@ theorem Avail.mono {s s' : St} (h : Ext s s') {c w : Nat} (ha : Avail s c w) : A
   · exact Or.inr (Or.inl (h.prov c w ha))
   · exact Or.inr (Or.inr (h.cache c w ha))
 
-theorem HeadOn.mono {s s' : St} (h : Ext s s') (hh : HeadOn s) : HeadOn s' := by
+theorem isHead_mono {s s' : St} (h : Ext s s') {k : Nat} (hp : isHead s.prov k = true) :
+    isHead s'.prov k = true := by
+  unfold isHead at *
+  cases hl : s.prov.lookup k with
+  | none => rw [hl] at hp; cases hp
+  | some w => rw [h.prov k w hl]; rfl
+
+theorem HeadOn.mono {s s' : St} (h : Ext s s') (hst : ∀ k ∈ s.stack, k ∈ s'.stack)
+    (hh : HeadOn s) : HeadOn s' := by
   obtain ⟨k, hk, hp⟩ := hh
-  refine ⟨k, by rw [h.stack]; exact hk, ?_⟩
+  refine ⟨k, hst k hk, ?_⟩
   unfold isHead at *
   cases hl : s.prov.lookup k with
   | none => rw [hl] at hp; cases hp
@@ -268,7 +276,7 @@ structure Inv (s : St) : Prop where
 /-- what a fetch guarantees. -/
 def ReadSpec (read : Nat → St → Res Fetched) : Prop :=
   ∀ c s v hs s', Inv P env s → read c s = .ok (v, hs, s') →
-    Inv P env s' ∧ Ext s s' ∧ Avail s' c v
+    Inv P env s' ∧ s'.stack = s.stack ∧ Ext s s' ∧ Avail s' c v
 
 theorem Inv.avail_le {s : St} (hI : Inv P env s) {c w : Nat} (h : Avail s c w) :
     le w (lfp P env c) := by
@@ -276,6 +284,197 @@ theorem Inv.avail_le {s : St} (hI : Inv P env s) {c w : Nat} (h : Avail s c w) :
   · rw [hI.finalOk c w h]; exact le_refl _
   · exact hI.provLe c w h
   · exact hI.cacheLe c w h
+
+/-- no node uses `FallbackImmediate`. -/
+def NoFallback (P : Prog) : Prop := ∀ j v, (P.node j).strat ≠ .fallback v
+
+theorem cycleInitial_zero {P : Prog} (h : NoFallback P) (j : Nat) : cycleInitial P j = 0 := by
+  unfold cycleInitial fallbackValue
+  cases hs : (P.node j).strat with
+  | fallback v => exact absurd hs (h j v)
+  | fixpoint b => rfl
+  | panic => rfl
+
+theorem participantValue_id {P : Prog} (h : NoFallback P) (j v : Nat) :
+    participantValue P j v = v := by
+  unfold participantValue
+  cases hs : (P.node j).strat with
+  | fallback fv => exact absurd hs (h j fv)
+  | fixpoint b => rfl
+  | panic => rfl
+
+theorem cycleFn_bounds {P : Prog} (h : NoFallback P) (j last v : Nat) :
+    le v (cycleFn P j last v) ∧ ∀ u, le v u → le last u → le (cycleFn P j last v) u := by
+  unfold cycleFn
+  cases hs : (P.node j).strat with
+  | fallback fv => exact absurd hs (h j fv)
+  | panic => exact ⟨le_refl _, fun u hu _ => hu⟩
+  | fixpoint b =>
+    cases b with
+    | false => exact ⟨le_refl _, fun u hu _ => hu⟩
+    | true => exact ⟨le_or_left _ _, fun u hu hl => or_le hu hl⟩
+
+theorem evalM_spec {read : Nat → St → Res Fetched} (hR : ReadSpec P env read) :
+    ∀ (e : Expr) (s : St) (v : Nat) (hs : List Nat) (s' : St), Inv P env s →
+      evalM env read e s = .ok (v, hs, s') →
+      Inv P env s' ∧ s'.stack = s.stack ∧ Ext s s' ∧ EvalRel env (Avail s') e v := by
+  intro e
+  induction e with
+  | const c =>
+    intro s v hs s' hI h
+    simp only [evalM] at h
+    injection h with h; injection h with h1 h; injection h with h2 h3
+    subst h1; subst h3
+    exact ⟨hI, rfl, Ext.refl _, rfl⟩
+  | input i =>
+    intro s v hs s' hI h
+    simp only [evalM] at h
+    injection h with h; injection h with h1 h; injection h with h2 h3
+    subst h1; subst h3
+    exact ⟨hI, rfl, Ext.refl _, rfl⟩
+  | call j =>
+    intro s v hs s' hI h
+    simp only [evalM] at h
+    cases hr : read j s with
+    | error e => rw [hr] at h; cases h
+    | ok r =>
+      obtain ⟨w, hs1, s1⟩ := r
+      rw [hr] at h
+      injection h with h; injection h with h1 h; injection h with h2 h3
+      subst h1; subst h3
+      obtain ⟨hI1, hst, hE, hA⟩ := hR j s w hs1 s1 hI hr
+      exact ⟨hI1, hst, hE, w, hA, rfl⟩
+  | union a b iha ihb =>
+    intro s v hs s' hI h
+    simp only [evalM] at h
+    cases ha : evalM env read a s with
+    | error e => rw [ha] at h; cases h
+    | ok r =>
+      obtain ⟨x, h1, s1⟩ := r
+      rw [ha] at h
+      simp only at h
+      cases hb : evalM env read b s1 with
+      | error e => rw [hb] at h; cases h
+      | ok r2 =>
+        obtain ⟨y, h2, s2⟩ := r2
+        rw [hb] at h
+        injection h with h; injection h with e1 h; injection h with e2 e3
+        subst e1; subst e3
+        obtain ⟨hI1, hst1, hE1, hA1⟩ := iha s x h1 s1 hI ha
+        obtain ⟨hI2, hst2, hE2, hA2⟩ := ihb s1 y h2 s2 hI1 hb
+        exact ⟨hI2, hst2.trans hst1, hE1.trans hE2, x, y,
+          EvalRel.mono (fun c w hw => Avail.mono hE2 hw) hA1, hA2, rfl⟩
+  | inter a b iha ihb =>
+    intro s v hs s' hI h
+    simp only [evalM] at h
+    cases ha : evalM env read a s with
+    | error e => rw [ha] at h; cases h
+    | ok r =>
+      obtain ⟨x, h1, s1⟩ := r
+      rw [ha] at h
+      simp only at h
+      cases hb : evalM env read b s1 with
+      | error e => rw [hb] at h; cases h
+      | ok r2 =>
+        obtain ⟨y, h2, s2⟩ := r2
+        rw [hb] at h
+        injection h with h; injection h with e1 h; injection h with e2 e3
+        subst e1; subst e3
+        obtain ⟨hI1, hst1, hE1, hA1⟩ := iha s x h1 s1 hI ha
+        obtain ⟨hI2, hst2, hE2, hA2⟩ := ihb s1 y h2 s2 hI1 hb
+        exact ⟨hI2, hst2.trans hst1, hE1.trans hE2, x, y,
+          EvalRel.mono (fun c w hw => Avail.mono hE2 hw) hA1, hA2, rfl⟩
+  | ite i a b iha ihb =>
+    intro s v hs s' hI h
+    simp only [evalM] at h
+    simp only [EvalRel]
+    split at h
+    · rename_i hc; rw [if_pos hc]; exact iha s v hs s' hI h
+    · rename_i hc; rw [if_neg hc]; exact ihb s v hs s' hI h
+
+/-- what `execute` guarantees for a node that is neither active nor memoised. -/
+def ExecSpec (exec : Nat → St → Res Fetched) : Prop :=
+  ∀ j s v hs s', Inv P env s → j ∉ s.stack → s.final.lookup j = none → s.cache.lookup j = none →
+    exec j s = .ok (v, hs, s') →
+    Inv P env s' ∧ s'.stack = s.stack ∧ Ext s s' ∧ Avail s' j v
+
+theorem fetchColdCycle_spec (hNF : NoFallback P) (c : Nat) (s : St) (v : Nat) (hs : List Nat)
+    (s' : St) (hI : Inv P env s) (hc : c ∈ s.stack)
+    (h : fetchColdCycle P c s = .ok (v, hs, s')) :
+    Inv P env s' ∧ s'.stack = s.stack ∧ Ext s s' ∧ Avail s' c v := by
+  unfold fetchColdCycle at h
+  have key : (match s.prov.lookup c with
+      | some v => (Except.ok (v, [c], s) : Res Fetched)
+      | none => .ok (cycleInitial P c, [c], { s with prov := (c, cycleInitial P c) :: s.prov }))
+      = .ok (v, hs, s') := by
+    cases hst : (P.node c).strat with
+    | panic => rw [hst] at h; cases h
+    | fixpoint b => rw [hst] at h; exact h
+    | fallback fv => rw [hst] at h; exact h
+  clear h
+  cases hl : s.prov.lookup c with
+  | some w =>
+    rw [hl] at key
+    injection key with key; injection key with e1 key; injection key with e2 e3
+    subst e1; subst e3
+    exact ⟨hI, rfl, Ext.refl _, Or.inr (Or.inl hl)⟩
+  | none =>
+    rw [hl] at key
+    injection key with key; injection key with e1 key; injection key with e2 e3
+    subst e1; subst e3
+    rw [cycleInitial_zero hNF]
+    have hE : Ext s { s with prov := (c, 0) :: s.prov } := by
+      refine ⟨rfl, fun _ _ h => h, ?_, fun _ _ h => h⟩
+      intro c' w hw
+      have : c' ≠ c := by intro e; subst e; rw [hl] at hw; cases hw
+      show ((c, 0) :: s.prov).lookup c' = some w
+      rw [lookup_cons_ne _ _ this]; exact hw
+    refine ⟨?_, rfl, hE, Or.inr (Or.inl (lookup_cons_self _ _ _))⟩
+    refine ⟨hI.nodup, hI.stackFresh, hI.cacheNotFinal, ?_, hI.finalOk, hI.finalClosed, ?_,
+      hI.cacheLe, ?_⟩
+    · intro hno
+      exact absurd ⟨c, hc, by simp [isHead, lookup_cons_self]⟩ hno
+    · intro c' w hw
+      by_cases hcc : c' = c
+      · subst hcc
+        have hw' : ((c', 0) :: s.prov).lookup c' = some w := hw
+        rw [lookup_cons_self] at hw'
+        injection hw' with hw'; subst hw'; exact zero_le _
+      · have hw' : ((c, 0) :: s.prov).lookup c' = some w := hw
+        rw [lookup_cons_ne _ _ hcc] at hw'
+        exact hI.provLe c' w hw'
+    · intro x w hx
+      obtain ⟨v0, hv0, hle⟩ := hI.just x w hx
+      exact ⟨v0, EvalRel.mono (fun c w hw => Avail.mono hE hw) hv0, hle⟩
+
+theorem fetch_spec (hNF : NoFallback P) {exec : Nat → St → Res Fetched}
+    (hX : ExecSpec P env exec) : ReadSpec P env (fetch P exec) := by
+  intro c s v hs s' hI h
+  unfold fetch at h
+  split at h
+  · cases h
+  · cases hf : s.final.lookup c with
+    | some w =>
+      rw [hf] at h
+      injection h with h; injection h with e1 h; injection h with e2 e3
+      subst e1; subst e3
+      exact ⟨hI, rfl, Ext.refl _, Or.inl hf⟩
+    | none =>
+      rw [hf] at h
+      simp only at h
+      split at h
+      · rename_i hc
+        exact fetchColdCycle_spec P env hNF c s v hs s' hI (by simpa using hc) h
+      · rename_i hc
+        cases hcache : s.cache.lookup c with
+        | some e =>
+          rw [hcache] at h
+          injection h with h; injection h with e1 h; injection h with e2 e3
+          subst e1; subst e3
+          exact ⟨hI, rfl, Ext.refl _, Or.inr (Or.inr (by simp [cval, hcache]))⟩
+        | none =>
+          rw [hcache] at h
+          exact hX c s v hs s' hI (by simpa using hc) hf hcache h
 
 end
 
